@@ -379,7 +379,7 @@ class DiscriminatedUnionUnpackerBuilder(AbstractUnpackerBuilder):
             )
             variant_tagger_expr = "variant_tagger_fn(variant)"
         else:
-            variant_tagger_expr = f"variant.__dict__['{discriminator.field}']"
+            variant_tagger_expr = f"variant.__dict__[{discriminator.field!r}]"
 
         if spec.builder.dialect:
             spec.builder.ensure_object_imported(
@@ -395,10 +395,10 @@ class DiscriminatedUnionUnpackerBuilder(AbstractUnpackerBuilder):
         if discriminator.field:
             chosen_cls = f"{variants_map}[discriminator]"
             with lines.indent("try:"):
-                lines.append(f"discriminator = value['{discriminator.field}']")
+                lines.append(f"discriminator = value[{discriminator.field!r}]")
             with lines.indent("except KeyError:"):
                 lines.append(
-                    f"raise MissingDiscriminatorError('{discriminator.field}')"
+                    f"raise MissingDiscriminatorError({discriminator.field!r})"
                     " from None"
                 )
             with lines.indent("try:"):
@@ -441,7 +441,7 @@ class DiscriminatedUnionUnpackerBuilder(AbstractUnpackerBuilder):
                 with lines.indent("except KeyError:"):
                     lines.append(
                         "raise SuitableVariantNotFoundError("
-                        f"{variants_type_expr}, '{discriminator.field}', "
+                        f"{variants_type_expr}, {discriminator.field!r}, "
                         "discriminator) from None"
                     )
         else:
@@ -1178,14 +1178,14 @@ def unpack_typed_dict(spec: ValueSpec) -> Expression:
             unpacker = UnpackerRegistry.get(
                 spec.copy(
                     type=annotations[key],
-                    expression=f"value['{key}']",
+                    expression=f"value[{key!r}]",
                     could_be_none=True,
                     owner=spec.type,
                 )
             )
-            lines.append(f"d['{key}'] = {unpacker}")
+            lines.append(f"d[{key!r}] = {unpacker}")
         for key in sorted(optional_keys, key=all_keys.index):
-            lines.append(f"key_value = value.get('{key}', MISSING)")
+            lines.append(f"key_value = value.get({key!r}, MISSING)")
             with lines.indent("if key_value is not MISSING:"):
                 unpacker = UnpackerRegistry.get(
                     spec.copy(
@@ -1195,7 +1195,7 @@ def unpack_typed_dict(spec: ValueSpec) -> Expression:
                         owner=spec.type,
                     )
                 )
-                lines.append(f"d['{key}'] = {unpacker}")
+                lines.append(f"d[{key!r}] = {unpacker}")
         lines.append("return d")
     lines.append(
         f"setattr({spec.cls_attrs_name}, '{method_name}', {method_name})"
